@@ -10,6 +10,7 @@
   The race detector, goroutine and TZ runs of the harness VALIDATE the modelling assumptions.
 -/
 import FP.Model.Isolation
+import FP.Gen.Globals
 namespace FP.Props.C04
 open FP.Model FP.Gen.Sites
 
@@ -103,7 +104,37 @@ theorem shared_table_would_leak :
 /-! ### (b) no write to process-wide state in the evaluator packages -/
 
 theorem no_package_variable_writes :
-    writes.all (fun w => w.prov == "local" || w.prov == "receiver" || w.prov.startsWith "param:") = true := by decide +kernel
+    writes.all (fun w => w.prov == "local" || w.prov == "local-fresh" || w.prov == "receiver" || w.prov.startsWith "param:") = true := by decide +kernel
+
+open FP.Gen.Globals in
+/-- NO PROCESS-WIDE STATE IS WRITTEN AFTER START-UP — in the whole module, not only in the evaluator packages:
+    every assignment, `++`/`--`, `delete`/`clear` and state-changing method call (Store, Delete, Lock, Do, …)
+    whose target is a package-level variable, and every assignment to a variable of another package, sits in an
+    `init` function or in the two test-support packages (`fhirtest`, `stablerand`).  A memo table, a cache, a
+    counter or a tuned third-party global added anywhere shows up here before anything is evaluated. -/
+theorem no_process_state_written_after_init :
+    globalWrites.all (fun w => w.fn == "init" || w.pkg == "internal/fhirtest" || w.pkg == "internal/stablerand") = true := by
+  decide +kernel
+
+open FP.Gen.Globals in
+/-- … and the package-level variables that could hold such state (everything that is not an error value, a
+    compiled regular expression or an alias of one) are exactly the audited ones: look-up tables written as
+    literals, the registries filled by `init`, the generated parser's static data -/
+theorem package_variables_as_audited :
+    ((pkgVars.filter (fun v => !(v.kind == "error-value" || v.kind == "regexp" || v.kind.startsWith "alias "))).map
+      (fun v => (v.pkg, v.name))) =
+    [("fhirpath/fhirpathtest", "Empty"), ("fhirpath/fhirpathtest", "True"), ("fhirpath/fhirpathtest", "False"),
+     ("fhirpath/internal/expr", "nonEvaluableFields"),
+     ("fhirpath/internal/funcs", "notImplemented"), ("fhirpath/internal/funcs", "baseTable"), ("fhirpath/internal/funcs", "experimentalTable"),
+     ("fhirpath/internal/grammar", "FhirpathLexerLexerStaticData"), ("fhirpath/internal/grammar", "FhirpathParserStaticData"),
+     ("fhirpath/system", "dateMap"), ("fhirpath/system", "timeMap"), ("fhirpath/system", "dateTimeMap"), ("fhirpath/system", "escapes"),
+     ("internal/element", "leafElementsByMsgFullName"), ("internal/fhir", "yearZeroBase"),
+     ("internal/fhirtest", "Elements"), ("internal/fhirtest", "BackboneElements"), ("internal/fhirtest", "Resources"),
+     ("internal/fhirtest", "DomainResources"), ("internal/fhirtest", "CanonicalResources"), ("internal/fhirtest", "MetadataResources"),
+     ("internal/protofields", "dummyResources"), ("internal/protofields", "dummyElements"), ("internal/protofields", "Resources"),
+     ("internal/protofields", "Elements"), ("internal/resource", "delimiter"),
+     ("internal/stablerand", "stableRand"), ("internal/stablerand", "randMutex")] := by
+  decide +kernel
 
 /-! ### (c) interleaving -/
 
